@@ -46,6 +46,9 @@ func c16r1(c *Ctx) {
 				flag types.Object
 			}
 			var rels []rel
+			// with the deferred calls made explicit the closure's own conditions are followed per path (below)
+			fdv := h.vsD.Of(f.Base)
+			useD := fdv != nil && !hasDeferredRelease(fdv, release)
 			for _, d := range f.Defers() {
 				body := ast.Node(d.Stmt.Call)
 				var scope *ir.Func = f
@@ -66,7 +69,7 @@ func c16r1(c *Ctx) {
 					continue
 				}
 				r := rel{node: d.Node}
-				if d.Lit != nil {
+				if d.Lit != nil && !useD {
 					// inside the deferred closure the release may be skipped only on the true edge of a boolean flag
 					lg := d.Lit.Graph()
 					cut := map[*cfgx.Edge]bool{}
@@ -123,7 +126,62 @@ func c16r1(c *Ctx) {
 			} else {
 				ob.OK("every path from the funding success edge registers the deferred release before any exit")
 			}
-			// disarming flag only after successful broadcast
+			// what the deferred release and its disarming flag are for, decided on the view with deferred calls made
+			// explicit (flag values are tracked per path there, whatever the flag's polarity): after a successful
+			// funding every exit passes ReleaseInputs for the transaction or a successful broadcast
+			if fd := fdv; useD {
+				ob2 := c.Ob(f, "release-disarmed-only-after-broadcast", rels[0].node.Pos())
+				gd := fd.Graph()
+				var from []*cfgx.Edge
+				var txnD types.Object
+				for _, fc := range fd.CallsTo(false, fund) {
+					if c.P.OrigNode(fc.Expr) == c.P.OrigNode(call.Expr) {
+						from = append(from, fd.CheckOf(fc.Expr).Succ...)
+						txnD = addrOfVar(fd, fc.Expr.Args[0])
+					}
+				}
+				cut := map[*cfgx.Edge]bool{}
+				for _, bc := range fd.CallsTo(false, broadcastFn) {
+					for _, e := range fd.CheckOf(bc.Expr).Succ {
+						cut[e] = true
+					}
+				}
+				releases := func(n *cfgx.Node) bool {
+					for _, rc := range fd.NodeCalls(n) {
+						if rc.Fn == release.Origin() {
+							for _, a := range rc.Expr.Args {
+								if txnD != nil && fd.MentionsObj(a, false, txnD) {
+									return true
+								}
+							}
+						}
+					}
+					return false
+				}
+				var st []*cfgx.Visit
+				for _, e := range from {
+					st = append(st, cfgx.StartAfter(e, 0))
+				}
+				var leak *cfgx.Visit
+				for _, v := range gd.Explore(st, cfgx.Walker{
+					AtNode: func(n *cfgx.Node, s cfgx.State) (cfgx.State, bool) { return s, !releases(n) },
+					OnEdge: func(e *cfgx.Edge, s cfgx.State) (cfgx.State, bool) { return s, !cut[e] },
+				}) {
+					if v.Node == gd.Exit {
+						leak = v
+					}
+				}
+				switch {
+				case len(from) == 0 || txnD == nil:
+					ob2.Unknown("the funding call was not found in the view with explicit deferred calls")
+				case leak != nil:
+					ob2.Bad(c.Witness(leak), "after Wallet.FundV2Transaction succeeded an exit is reachable that neither releases the transaction's inputs nor follows a successful Wallet.BroadcastV2TransactionSet (the deferred release is disarmed too early, or depends on a variable that failure exits shadow): the inputs stay reserved")
+				default:
+					ob2.OK("every exit after funding releases the inputs or follows a successful broadcast")
+				}
+				goto shrink
+			}
+			// (fallback when the deferred calls could not be made explicit) disarming flag only after successful broadcast
 			for _, r := range rels {
 				if r.flag == nil {
 					continue
@@ -160,6 +218,7 @@ func c16r1(c *Ctx) {
 				}
 				ob2.Check(good && sets > 0, nil, "the flag that disarms the deferred release is set on a path that has not passed a successful Wallet.BroadcastV2TransactionSet: a failure after that point keeps the inputs reserved")
 			}
+		shrink:
 			// shrinking / replacing stores
 			ob3 := c.Ob(f, "funded-transaction-not-shrunk", call.Pos())
 			isRestore := func(n *cfgx.Node) bool {
@@ -212,6 +271,21 @@ func c16r1(c *Ctx) {
 			}
 		}
 	}
+}
+
+// hasDeferredRelease: a defer statement calling ReleaseInputs is still present in f (it could not be made explicit).
+func hasDeferredRelease(f *ir.Func, release *types.Func) bool {
+	found := false
+	ir.Walk(f.Body, false, func(n ast.Node) {
+		if ds, ok := n.(*ast.DeferStmt); ok {
+			for _, rc := range f.CallsIn(ds.Call, true) {
+				if rc.Fn == release.Origin() {
+					found = true
+				}
+			}
+		}
+	})
+	return found
 }
 
 func c16r2(c *Ctx) {
@@ -297,18 +371,50 @@ func c16r3(c *Ctx) {
 			ob := c.Ob(f, "pool-accepts-set-before:"+sink.Fn.Name(), sink.Pos())
 			// the set variable inside TransactionSet{Transactions: S, Basis: B}
 			var set, basis types.Object
-			if cl, ok := ast.Unparen(origin(f, sink.Expr.Args[0])).(*ast.CompositeLit); ok {
-				for _, el := range cl.Elts {
-					if kv, ok := el.(*ast.KeyValueExpr); ok {
-						if k, ok := kv.Key.(*ast.Ident); ok {
-							switch k.Name {
-							case "Transactions":
-								set = f.ObjOf(kv.Value)
-							case "Basis":
-								basis = f.ObjOf(kv.Value)
+			fromLit := func(e ast.Expr) (s, b types.Object) {
+				if cl, ok := ast.Unparen(e).(*ast.CompositeLit); ok {
+					for _, el := range cl.Elts {
+						if kv, ok := el.(*ast.KeyValueExpr); ok {
+							if k, ok := kv.Key.(*ast.Ident); ok {
+								switch k.Name {
+								case "Transactions":
+									s = f.ObjOf(kv.Value)
+								case "Basis":
+									b = f.ObjOf(kv.Value)
+								}
 							}
 						}
 					}
+				}
+				return
+			}
+			set, basis = fromLit(origin(f, sink.Expr.Args[0]))
+			if argObj := f.ObjOf(sink.Expr.Args[0]); set == nil && argObj != nil {
+				// a variable written on several paths (a helper's result with zero values on its failure returns):
+				// the definitions that reach the sink decide
+				agree := true
+				for _, d := range ReachingDefs(f, argObj, sn) {
+					if d == nil || d.AST == nil {
+						agree = false
+						continue
+					}
+					for _, w := range f.WritesIn(d.AST, false) {
+						if f.ObjOf(w.LHS) != argObj {
+							continue
+						}
+						if w.RHS == nil {
+							agree = false
+							continue
+						}
+						s2, b2 := fromLit(w.RHS)
+						if s2 == nil || (set != nil && (s2 != set || b2 != basis)) {
+							agree = false
+						}
+						set, basis = s2, b2
+					}
+				}
+				if !agree {
+					set = nil
 				}
 			}
 			if set == nil {
@@ -328,7 +434,15 @@ func c16r3(c *Ctx) {
 			good := false
 			for _, bc := range f.CallsTo(false, broadcastFn) {
 				bn := g.NodeContaining(bc.Pos())
-				if f.OnlyVia(bn, sinkOK) && len(bc.Expr.Args) == 2 && f.ObjOf(bc.Expr.Args[1]) == set {
+				isSet := func(e ast.Expr) bool {
+					if f.ObjOf(e) == set {
+						return true
+					}
+					// the Transactions field of the very value recorded
+					sel, ok := ast.Unparen(e).(*ast.SelectorExpr)
+					return ok && sel.Sel.Name == "Transactions" && f.ObjOf(sel.X) != nil && f.ObjOf(sel.X) == f.ObjOf(sink.Expr.Args[0])
+				}
+				if f.OnlyVia(bn, sinkOK) && len(bc.Expr.Args) == 2 && isSet(bc.Expr.Args[1]) {
 					good = true
 				}
 			}
